@@ -158,7 +158,7 @@ class Translator:
             spec._rec = r
         return r
 
-    def saturate(self, formulas, fuel, lemmas, local_lemmas, max_instances=1500):
+    def saturate(self, formulas, fuel, lemmas, local_lemmas, max_instances=1500, known=None):
         """Ground facts implied by the definitions of the spec functions and by proved lemmas.
 
         Every application term has a level.  Terms of the VC have level 0.  Unfolding an application whose
@@ -169,6 +169,21 @@ class Translator:
         level = {}
         done = set()
         instantiated = set()
+        known = known or {}
+
+        def headed(x):
+            """x with its top constructor made explicit, when the path condition determines it"""
+            if z3.is_app_of(x, z3.Z3_OP_DT_CONSTRUCTOR):
+                return x, None
+            S = x.sort()
+            if isinstance(S, z3.DatatypeSortRef) and S.num_constructors() == 1:
+                c = S.constructor(0)
+                return (c(*[S.accessor(0, j)(x) for j in range(c.arity())]) if c.arity() else c()), None
+            ci = known.get(x.get_id())
+            if ci is not None:
+                c = S.constructor(ci)
+                return (c(*[S.accessor(ci, j)(x) for j in range(c.arity())]) if c.arity() else c()), S.recognizer(ci)(x)
+            return None, None
         lemma_specs = []
         for lem in lemmas:
             vs, body, trig = self.lemma_z3(lem)
@@ -183,89 +198,142 @@ class Translator:
             for t in subterms(forms).values():
                 k = t.get_id()
                 if k not in level or level[k] > lv:
-                    if k not in level:
+                    if k not in level or k not in done:
                         fresh.append(t)
                     level[k] = lv
             return fresh
 
         frontier = note(formulas, 0)
-        has_rank = None
+        has_rank = False
         count = 0
+        lemma_by_decl = {}
+        for spec_ in lemma_specs:
+            (lname, vs, body, trigs) = spec_
+            ids = {v.get_id() for v in vs}
+            for pat in trigs:
+                lemma_by_decl.setdefault(pat.decl().get_id(), []).append((lname, vs, body, pat, ids))
         for rnd in range(40):
             if not frontier or count > max_instances:
                 break
             new_batches = []      # (formulas, level)
-            if has_rank is None or not has_rank:
-                has_rank = any(z3.is_app(t) and t.decl().name() in rank_decls for t in frontier) or bool(has_rank)
+            info = []
             for t in frontier:
                 if not z3.is_app(t):
                     continue
-                k = t.get_id()
-                lv = level[k]
                 d = t.decl()
-                nm = d.name()
-                kind = d.kind()
-                if kind == z3.Z3_OP_DT_ACCESSOR and has_rank:
+                info.append((t, t.get_id(), d, d.kind(), d.get_id()))
+            if not has_rank:
+                has_rank = any(kind == z3.Z3_OP_UNINTERPRETED and d.name() in rank_decls for (t, k, d, kind, did) in info)
+            for (t, k, d, kind, did) in info:
+                lv = level[k]
+                if kind == z3.Z3_OP_DT_ACCESSOR:
+                    if not has_rank:
+                        continue
                     y = t.arg(0)
                     sy, st = self.U.sort_name(y.sort()), self.U.sort_name(t.sort())
                     if sy in self.U.rank and st in self.U.rank:
                         S = y.sort()
                         for ci in range(S.num_constructors()):
                             for j in range(S.constructor(ci).arity()):
-                                if S.accessor(ci, j).eq(t.decl()):
+                                if S.accessor(ci, j).eq(d):
                                     new_batches.append(([z3.Implies(S.recognizer(ci)(y), self.U.rank[st](t) < self.U.rank[sy](y))], lv))
                     continue
-                if kind != z3.Z3_OP_UNINTERPRETED or t.num_args() == 0 or k in done:
+                if kind != z3.Z3_OP_UNINTERPRETED or t.num_args() == 0:
                     continue
-                if nm in rank_decls and d.eq(rank_decls[nm][1]):
-                    done.add(k)
-                    new_batches.append(([t >= 0], lv))
-                    continue
-                if nm in len_decls and d.eq(len_decls[nm][1]):
-                    sn, ld = len_decls[nm]
-                    x = t.arg(0)
-                    collapsing = z3.is_app_of(x, z3.Z3_OP_DT_CONSTRUCTOR)
-                    done.add(k)
-                    new_batches.append(([t >= 0], lv))
-                    if collapsing or lv < fuel:
-                        new_batches.append(([t == z3.simplify(z3.If(self.U.is_nil(sn, x), 0, 1 + ld(self.U.tl(sn, x))))],
-                                            lv if collapsing else lv + 1))
-                    continue
-                spec = self.spec_by_decl.get(nm)
-                if spec is not None and self._decls.get(nm) is not None and d.eq(self._decls[nm]):
-                    params, body = self.body_of(spec)
-                    if params is None:
+                if k not in done:
+                    nm = d.name()
+                    if nm in rank_decls and d.eq(rank_decls[nm][1]):
                         done.add(k)
-                        continue
-                    ri = self.rec_index(spec)
-                    collapsing = ri >= 0 and z3.is_app_of(t.arg(ri), z3.Z3_OP_DT_CONSTRUCTOR)
-                    if not collapsing and lv >= fuel:
-                        continue          # may be unfolded later if its level drops
-                    done.add(k)
-                    inst = z3.simplify(z3.substitute(body, *zip(params, t.children())))
-                    new_batches.append(([t == inst], lv if collapsing else lv + 1))
-                    count += 1
-            # lemma instances by trigger matching over the frontier
-            for (lname, vs, body, trigs) in lemma_specs:
-                ids = {v.get_id() for v in vs}
-                for pat in trigs:
-                    pd = pat.decl()
-                    for t in frontier:
-                        if not z3.is_app(t) or not t.decl().eq(pd):
+                        new_batches.append(([t >= 0], lv))
+                    elif nm in len_decls and d.eq(len_decls[nm][1]):
+                        sn, ld = len_decls[nm]
+                        x = t.arg(0)
+                        hx, guard = headed(x)
+                        collapsing = hx is not None
+                        done.add(k)
+                        new_batches.append(([t >= 0], lv))
+                        if collapsing or lv < fuel:
+                            xx = hx if collapsing else x
+                            eq = t == z3.simplify(z3.If(self.U.is_nil(sn, xx), 0, 1 + ld(self.U.tl(sn, xx))))
+                            new_batches.append(([z3.Implies(guard, eq) if guard is not None else eq],
+                                                lv if collapsing else lv + 1))
+                    else:
+                        spec = self.spec_by_decl.get(nm)
+                        if spec is not None and self._decls.get(nm) is not None and d.eq(self._decls[nm]):
+                            params, body = self.body_of(spec)
+                            if params is None:
+                                done.add(k)
+                            else:
+                                ri = self.rec_index(spec)
+                                args = t.children()
+                                guard = None
+                                collapsing = False
+                                if ri >= 0:
+                                    hx, guard = headed(args[ri])
+                                    if hx is not None:
+                                        collapsing = True
+                                        args[ri] = hx
+                                if collapsing or lv < fuel:
+                                    done.add(k)
+                                    inst = z3.simplify(z3.substitute(body, *zip(params, args)))
+                                    eq = t == inst
+                                    new_batches.append(([z3.Implies(guard, eq) if guard is not None else eq],
+                                                        lv if collapsing else lv + 1))
+                                    count += 1
+                # lemma instances by trigger matching
+                for (lname, vs, body, pat, ids) in lemma_by_decl.get(did, ()):
+                    b = {}
+                    if self.match(pat, t, ids, b) and len(b) == len(ids):
+                        key = (lname,) + tuple(b[v.get_id()].get_id() for v in vs)
+                        if key in instantiated:
                             continue
-                        b = {}
-                        if self.match(pat, t, ids, b) and len(b) == len(ids):
-                            key = (lname,) + tuple(b[v.get_id()].get_id() for v in vs)
-                            if key in instantiated:
-                                continue
-                            instantiated.add(key)
-                            new_batches.append(([z3.substitute(body, *[(v, b[v.get_id()]) for v in vs])], level[t.get_id()]))
-                            count += 1
+                        instantiated.add(key)
+                        new_batches.append(([z3.substitute(body, *[(v, b[v.get_id()]) for v in vs])], lv))
+                        count += 1
             frontier = []
             for forms, lv in new_batches:
                 facts.extend(forms)
                 frontier.extend(note(forms, lv))
+            # applications that were too deep may have become cheaper (level dropped): revisit them
+            # (note() only returns unseen terms; a dropped level matters only for not-yet-unfolded apps)
         return facts
+
+    def known_ctors(self, forms):
+        """{term id: constructor index} for terms whose top constructor the path condition fixes"""
+        known = {}
+        for f in forms:
+            stack = [f]
+            while stack:
+                g = stack.pop()
+                if z3.is_and(g):
+                    stack.extend(g.children())
+                    continue
+                neg = False
+                if z3.is_not(g):
+                    neg = True
+                    g = g.arg(0)
+                if z3.is_eq(g) and not neg:
+                    # t == C  for a nullary constructor C (doc is NIL)
+                    a, b = g.arg(0), g.arg(1)
+                    for x, y in ((a, b), (b, a)):
+                        if z3.is_app_of(y, z3.Z3_OP_DT_CONSTRUCTOR) and y.num_args() == 0 and not z3.is_app_of(x, z3.Z3_OP_DT_CONSTRUCTOR):
+                            S = x.sort()
+                            for ci in range(S.num_constructors()):
+                                if S.constructor(ci).eq(y.decl()):
+                                    known[x.get_id()] = ci
+                    continue
+                if z3.is_app(g) and g.decl().kind() == z3.Z3_OP_DT_IS:
+                    t = g.arg(0)
+                    if z3.is_app_of(t, z3.Z3_OP_DT_CONSTRUCTOR):
+                        continue
+                    S = t.sort()
+                    for ci in range(S.num_constructors()):
+                        if S.recognizer(ci).eq(g.decl()):
+                            if not neg:
+                                known[t.get_id()] = ci
+                            elif S.num_constructors() == 2:
+                                known[t.get_id()] = 1 - ci
+        return known
 
     def refine_known_ctors(self, forms):
         """pc says is_C(t): rewrite t to C(acc_1(t), ...) so that definitional unfolding collapses."""
@@ -283,6 +351,15 @@ class Translator:
                     if z3.is_app(g) and g.decl().kind() == z3.Z3_OP_DT_IS and not z3.is_app_of(g.arg(0), z3.Z3_OP_DT_CONSTRUCTOR):
                         recog[g.arg(0).get_id()] = (g.arg(0), g.decl())
                         keep[g.get_id()] = g
+                    elif z3.is_not(g) and z3.is_app(g.arg(0)) and g.arg(0).decl().kind() == z3.Z3_OP_DT_IS:
+                        # not is_A(t) on a two-constructor datatype means is_B(t)
+                        h = g.arg(0)
+                        t = h.arg(0)
+                        S = t.sort()
+                        if S.num_constructors() == 2 and not z3.is_app_of(t, z3.Z3_OP_DT_CONSTRUCTOR):
+                            other = 1 if S.recognizer(0).eq(h.decl()) else 0
+                            recog[t.get_id()] = (t, S.recognizer(other))
+                            keep[g.get_id()] = g
             if not recog:
                 break
             subs = []
@@ -305,8 +382,8 @@ class Translator:
     def prepare(self, ob, lemmas, fuel=None):
         fuel = self.fuel if fuel is None else fuel
         forms = [z3.simplify(p) for p in ob.pc] + [z3.simplify(z3.Not(ob.goal))]
-        forms = self.refine_known_ctors(forms)
-        facts = self.saturate(forms, fuel, lemmas, ob.local_lemmas)
+        known = self.known_ctors(forms)
+        facts = self.saturate(forms, fuel, lemmas, ob.local_lemmas, known=known)
         return forms + facts
 
     def solve(self, ob, lemmas, timeout_ms=10000, fuel=None, use_cvc5=True):
